@@ -65,6 +65,7 @@ def parseCase (f : List String) : Option Case :=
       match t.toList with
       | 'D' :: r => (String.ofList r).toNat?.map fun k => [.d, .send k]
       | 'X' :: r => (String.ofList r).toNat?.map fun k => [.x, .send k]
+      | 'S' :: r => (String.ofList r).toNat?.map fun k => [.send k]   -- first stream bytes in the same write as the RDB
       | _ => (parseStep t).map fun x => [x]
     let st ← ((steps.splitOn ",").mapM expand).map List.flatten
     if kind == "inc" || kind == "cont" || kind == "full" || kind == "tags" then
